@@ -182,7 +182,9 @@ class Engine:
         except Budget:
             return "budget", budget
         except Exception as e:  # noqa
-            return "raised", "%s: %s" % (type(e).__name__, str(e)[:200])
+            import re
+
+            return "raised", "%s: %s" % (type(e).__name__, re.sub(r" at 0x[0-9a-f]+", "", str(e))[:200])
         finally:
             self.limit[0] = 1 << 60
 
@@ -341,7 +343,7 @@ def avoided(mon, t, g, route):
     """the trigger constructs of the open findings are not handed to ppci"""
     if K_KEYERR in mon.avoid and not g.has_dead_state():
         return "avoid:" + K_KEYERR
-    if K_DIVERGE in mon.avoid and rxref.has(t, ("star", "plus")) and g.prefix_ambiguous():
+    if K_DIVERGE in mon.avoid and rxref.may_diverge(t):
         return "avoid:" + K_DIVERGE
     if route == "parse" and K_PARSER in mon.avoid and not rxref.concat_only_at_top(t):
         return "avoid:" + K_PARSER
@@ -618,7 +620,7 @@ def check_tokens(mon, eng, asts, names, texts, routes):
         if K_KEYERR in mon.avoid and not joint_dead_state([o.g for o in orcs]):
             why = "avoid:" + K_KEYERR
         for t, o in zip(asts, orcs):
-            if why is None and K_DIVERGE in mon.avoid and rxref.has(t, ("star", "plus")) and o.g.prefix_ambiguous():
+            if why is None and K_DIVERGE in mon.avoid and rxref.may_diverge(t):
                 why = "avoid:" + K_DIVERGE
             if why is None and route == "parse" and K_PARSER in mon.avoid and not rxref.concat_only_at_top(t):
                 why = "avoid:" + K_PARSER
